@@ -251,7 +251,9 @@ def check_C09(tier):
     types = idl_asts(res, "types", 3 if thorough else 2, 3)
     shapes = idl_asts(res, "shapes", 1, 3)
     stacked = idl_asts(res, "stacked", 1, 3)
-    cases = names + types + (shapes if thorough else shapes[::20]) + (stacked if thorough else stacked[::2])
+    # typedefs that refer to themselves / each other behind [] or [string]: finitely sized, so the property applies
+    recursive = [c for c in idl_asts(res, "recursive", 1, 3) if c["finite"]]
+    cases = names + types + (shapes if thorough else shapes[::20]) + (stacked if thorough else stacked[::2]) + recursive
     items = []
     for k, c in enumerate(cases):
         c["_name"] = "m%d" % k
